@@ -760,6 +760,30 @@ def check_hyper(ctx, case):
     if bitsl(hp2) != bitsl(h2) or float(cov.process_variance) != h2[0]:
       viol(ctx, "hyperparameters do not read back as set (setter)", case, {"set": h2, "read": hp2})
       return False
+    # the kernel VALUES after the setter are those of a kernel freshly built with the new vector (a value evaluated
+    # before the assignment must not be remembered): "hyperparameters read back as set" is about what the kernel computes
+    if all(math.isfinite(x) and x > 0 for x in h2) and len(h2) >= 2:
+      dimk = len(h2) - 1
+      rs_ = numpy.random.RandomState(len(h2) * 7919 + 13)
+      P_, Q_ = rs_.uniform(-1, 1, size=(4, dimk)), rs_.uniform(-1, 1, size=(4, dimk))
+      if kernel == "multitask":
+        P_[:, -1], Q_[:, -1] = [0.1, 0.3, 1.0, 0.3], [1.0, 0.1, 0.3, 0.3]
+      try:
+        first_ = cl[case["kind"]](numpy.array(h, dtype=float)) if kernel == "radial" else MultitaskTensorCovariance(numpy.array(h, dtype=float), cl[case["kp"]], cl[case["kt"]])
+        first_.covariance(P_, Q_); first_.build_kernel_matrix(P_)            # evaluate once, then re-assign
+        if hasattr(first_, "hyperparameter_grad_covariance"):
+          first_.hyperparameter_grad_covariance(P_, Q_)
+        first_.hyperparameters = numpy.array(h2)
+        fresh_ = cl[case["kind"]](numpy.array(h2, dtype=float)) if kernel == "radial" else MultitaskTensorCovariance(numpy.array(h2, dtype=float), cl[case["kp"]], cl[case["kt"]])
+        for nm_, a_, b_ in (("covariance", first_.covariance(P_, Q_), fresh_.covariance(P_, Q_)),
+                            ("build_kernel_matrix", first_.build_kernel_matrix(P_), fresh_.build_kernel_matrix(P_)),
+                            ("build_kernel_matrix (cross)", first_.build_kernel_matrix(P_, Q_), fresh_.build_kernel_matrix(P_, Q_))):
+          if not numpy.allclose(numpy.asarray(a_, dtype=float), numpy.asarray(b_, dtype=float), rtol=1e-13, atol=0.0):
+            viol(ctx, f"{nm_} after re-assigning the hyperparameters differs from a kernel freshly built with them", case, {"first": h, "second": h2})
+            return False
+        ctx.count("values after setter = values of a fresh kernel")
+      except NotImplementedError:
+        pass
     # read-back is a copy: mutating it must not change the kernel
     got_arr = cov.hyperparameters
     got_arr[:] = -1.0
